@@ -34,13 +34,15 @@ func absDiff(a, b uint32) uint32 {
 }
 
 // within4 is the format's 30-bit float tolerance: same sign, magnitude bit
-// patterns at most 4 apart (so Inf stays Inf); a NaN stays non-finite.
+// patterns at most 4 apart (so Inf stays Inf), finite stays finite; a NaN stays non-finite.
 func within4(f, g float32) bool {
 	bf, bg := math.Float32bits(f), math.Float32bits(g)
 	nan := f != f
 	nonfinite := bg&0x7f800000 == 0x7f800000
 	close := vp.And(bf>>31 == bg>>31, absDiff(bf&0x7fffffff, bg&0x7fffffff) <= 4)
-	return vp.Or(vp.And(nan, nonfinite), vp.And(!nan, close))
+	// a finite value stays finite: +-Inf is not "within 4 units in the last place" of MaxFloat32
+	finite := vp.Implies(bf&0x7f800000 != 0x7f800000, !nonfinite)
+	return vp.Or(vp.And(nan, nonfinite), vp.All(!nan, close, finite))
 }
 
 // isInt reports whether f is an integer in [lo, hi).
